@@ -117,6 +117,49 @@ func runC18(c *Ctx) {
 		}
 	}
 	c.Check(nRange >= 3, "module/map-ranges", nil, fmt.Sprintf("%d ranges over maps examined", nRange))
+	// library helpers that return a map's keys or values in iteration order are ranges over a map too
+	for _, f := range fns {
+		for _, cl := range AllCalls(f, false) {
+			n := calleeName(cl)
+			isMapOrder := false
+			for _, pre := range []string{"golang.org/x/exp/maps.Keys", "golang.org/x/exp/maps.Values", "maps.Keys", "maps.Values", "maps.All"} {
+				if n == pre || strings.HasPrefix(n, pre+"[") {
+					isMapOrder = true
+				}
+			}
+			if !isMapOrder {
+				continue
+			}
+			v := cl.Value()
+			okSorted := v != nil
+			var sorts []ssa.Instruction
+			if v != nil {
+				for _, r := range *v.Referrers() {
+					if rc, isCall := r.(ssa.CallInstruction); isCall {
+						rn := calleeName(rc)
+						if strings.HasPrefix(rn, "sort.") || strings.HasPrefix(rn, "slices.Sort") {
+							sorts = append(sorts, r)
+						}
+					}
+				}
+				for _, r := range *v.Referrers() {
+					if _, isDbg := r.(*ssa.DebugRef); isDbg {
+						continue
+					}
+					isSort := false
+					for _, sr := range sorts {
+						if sr == r {
+							isSort = true
+						}
+					}
+					if !isSort && (len(sorts) == 0 || !mustPassBefore(r, sorts...)) {
+						okSorted = false
+					}
+				}
+			}
+			c.Check(okSorted, fk(topFn(f), "map-order-helper", shortName(n)), cl, shortName(n)+" returns entries in map iteration order; the result must be sorted before any other use")
+		}
+	}
 
 	if extraC18 != nil {
 		extraC18(c, fns)
